@@ -1,5 +1,6 @@
 import Driver.C20
 import Driver.Sec
+import Driver.Brk
 import Driver.C01
 import Driver.C04
 import Driver.C16
@@ -33,6 +34,10 @@ def main (args : List String) : IO UInt32 := do
   let stdout ← IO.getStdout
   match args with
   | ["C01"] => loopSt stdin stdout C01.step {}; return 0
+  | ["C02"] => loopSt stdin stdout Brk.stepLine {}; return 0
+  | ["C07"] => loopSt stdin stdout Brk.stepLine {}; return 0
+  | ["C08"] => loopSt stdin stdout Brk.stepLine {}; return 0
+  | ["C18"] => loopSt stdin stdout Brk.stepLine {}; return 0
   | ["C03"] => loopSt stdin stdout Sec.step {}; return 0
   | ["C04"] => loopSt stdin stdout C04.step {}; return 0
   | ["C16"] => loop stdin stdout C16.step; return 0
